@@ -120,20 +120,10 @@ impl Buffer {
 
     pub fn shift(&mut self) {
         if self.position > 0 {
-            // SAFETY: src and dst point into `self.memory` (same
-            // allocation); the slice indexing above bounds-checks both
-            // ranges (`position..end` and `..length`) against the live
-            // buffer length. `ptr::copy` is overlap-safe.
-            unsafe {
-                let length = self.end - self.position;
-                ptr::copy(
-                    self.memory[self.position..self.end].as_ptr(),
-                    self.memory[..length].as_mut_ptr(),
-                    length,
-                );
-                self.position = 0;
-                self.end = length;
-            }
+            let length = self.end - self.position;
+            self.memory.copy_within(self.position..self.end, 0);
+            self.position = 0;
+            self.end = length;
         }
     }
 
